@@ -25,11 +25,11 @@ INF = 26            # SimExecutor!Inf for the generating configuration (MaxT = 6
 DUMMY = 90          # placeholder source of a `sched` node without a producer
 
 # (cfg, invariant TLC must report)
-FAULTS_QUICK = [("nolower", "EveryWakeupHonouredExactly"), ("nolower2", "NoLostNotify"), ("overwrite", "CacheIsMinFutureSlot"),
+FAULTS_QUICK = [("nolower", "EveryWakeupHonouredExactly"), ("overwrite", "CacheIsMinFutureSlot"),
                 ("skipplus1", "CacheIsMinFutureSlot"), ("seedgt", "EveryWakeupHonouredExactly"), ("norearm", "EveryWakeupHonouredExactly"),
                 ("maxadvance", "EveryWakeupHonouredExactly"), ("endinclusive", "WithinWindow"), ("cachege", "AtMostOncePerCycle"),
                 ("noreset", "CursorMonotone"), ("noreset2", "TimeStrictlyIncreases"), ("pushinvert", "NoUnrequestedCycle")]
-FAULTS_MORE = [("norearm2", "EveryWakeupHonouredExactly"), ("cachege2", "NoUnrequestedCycle"), ("nocachereset", "TimeStrictlyIncreases"),
+FAULTS_MORE = [("nolower2", "NoLostNotify"), ("norearm2", "EveryWakeupHonouredExactly"), ("cachege2", "NoUnrequestedCycle"), ("nocachereset", "TimeStrictlyIncreases"),
                ("fbnow", "EveryWakeupHonouredExactly"), ("overwrite2", "NeverPast")]
 
 
